@@ -56,7 +56,7 @@ def run(ctx):
     traces = framework.pool_map(C.trace_of_path, [(i + 1, p) for i, p in enumerate(progs)])
     ctx._phase("run-programs", t0)
     ctx.cov["exhaustive"] = True
-    n = ctx.pick(300, 8000)
+    n = ctx.pick(300, 4000)
     t0 = time.time()
     rnd = framework.pool_map(C.random_program, [(100000 + i, ctx.seed * 1000003 + i, 1 + i % 4) for i in range(n)])
     ctx._phase("run-random", t0)
